@@ -7,6 +7,11 @@ import ZV.Model.C29
        printed as `T` (the harness prints `T` iff they are the low 32 bits of a Unix time it observed
        around the call).
     `c29 parse <hex>` → `ok <canonical dump>` / `err`   (clientHelloMsg.unmarshal)
+    `c29 ext <tok>` → `<hex of ext.Marshal()> <1 iff CheckImplemented() == nil>`
+    `c29 check <exts>` → `ok` / `err`   ((*ClientFingerprintConfiguration).CheckImplementedExtensions)
+    `c29 rt <marshal args>` → `ok <dump of the hello parsed back>` / `err-marshal` / `err-parse`
+    `c29 wtc <ServerName hex> <SignatureAndHashes before n,…|-> <vers> <random hex> <suites> <wexts>`
+       → the Config fields (*ClientFingerprintConfiguration).WriteToConfig wrote and the extension list afterwards
     `c29 wire <ServerName hex> <fp cache: -|nokey|empty|s:vers:suite:tickethex> <RandomSessionID> <Config options>
               <force> … <exts>` (rest as in marshal; ext tokens `sni+…` / `ticket+:hex` = Autopopulate)
        → `ok <hex of the ClientHello in the first handshake record(s)>` / `err` / `panic` -/
@@ -73,8 +78,72 @@ def parseFpCache (s : String) : Option FpCache :=
 def configCacheOf (copt : String) : Bool :=
   (copt.toList.contains 'C' || copt.toList.contains 'T') && !copt.toList.contains 'D'
 
+def showExtTok : Ext → String
+  | .null => "null"
+  | .reneg => "reneg"
+  | .ems => "ems"
+  | .status => "status"
+  | .sct => "sct"
+  | .sni ds => "sni" ++ String.join (ds.map (fun d => ":" ++ toHex d))
+  | .alpn ps => "alpn" ++ String.join (ps.map (fun d => ":" ++ toHex d))
+  | .curves l => "curves" ++ String.join (l.map (fun n => ":" ++ toString n.toNat))
+  | .sigalgs l => "sigalgs" ++ String.join (l.map (fun n => ":" ++ toString n.toNat))
+  | .points l => "points:" ++ toHex l
+  | .ticket t => "ticket:" ++ toHex t
+
+def showWExtTok (w : WExt) : String :=
+  if w.auto then
+    match w.e with
+    | .sni ds => "sni+" ++ String.join (ds.map (fun d => ":" ++ toHex d))
+    | .ticket t => "ticket+:" ++ toHex t
+    | e => showExtTok e
+  else showExtTok w.e
+
+def showWCfg (r : List WExt × WCfg) : String :=
+  let c := r.2
+  " ".intercalate [
+    "sn=" ++ toHex c.serverName,
+    "np=" ++ toString c.nextProtos.length ++ "/" ++ showList (c.nextProtos.map toHex),
+    "cs=" ++ showNats (c.cipherSuites.map (·.toNat)),
+    "mv=" ++ toString c.maxVersion.toNat,
+    "cr=" ++ toHex c.clientRandom,
+    "cp=" ++ showNats (c.curvePrefs.map (·.toNat)),
+    "hb=" ++ showBool c.heartbeat,
+    "er=" ++ showBool c.extendedRandom,
+    "ft=" ++ showBool c.forceTicket,
+    "ems=" ++ showBool c.ems,
+    "sct=" ++ showBool c.sct,
+    "sh=" ++ showList (c.sigHashes.map (fun p => toString p.1.toNat ++ ":" ++ toString p.2.toNat)),
+    "exts=" ++ showList (r.1.map showWExtTok)]
+
 def handle (args : List String) : String :=
   match args with
+  | ["ext", tok] =>
+    match parseExtTok tok with
+    | none => "bad-op"
+    | some e => toHex (marshalExt e) ++ " " ++ showBool (checkExt e)
+  | ["check", exts] =>
+    match parseExtToks exts with
+    | none => "bad-op"
+    | some l => if checkExts l then "ok" else "err"
+  | ["rt", force, vers, random, ts, sid, suites, comp, rand, exts] =>
+    match parseBool force, vers.toNat?, ofHex random, parseBool ts, ofHex sid, parseNats suites,
+          ofHex comp, ofHex rand, parseExtToks exts with
+    | some force, some vers, some random, some ts, some sid, some suites, some comp, some rand, some exts =>
+      let cfg : Cfg := { vers := UInt16.ofNat vers, random := random, insertTimestamp := ts, sessionId := sid,
+                         suites := suites.map UInt16.ofNat, comp := comp, exts := exts }
+      match roundTrip cfg force rand 0 with
+      | .errMarshal => "err-marshal"
+      | .errParse => "err-parse"
+      | .ok m => "ok " ++ showClientHello m
+    | _, _, _, _, _, _, _, _, _ => "bad-op"
+  | ["wtc", sn, sh0, vers, random, suites, exts] =>
+    match ofHex sn, parseNats sh0, vers.toNat?, ofHex random, parseNats suites, parseWExtToks exts with
+    | some sn, some sh0, some vers, some random, some suites, some wexts =>
+      let cfg : Cfg := { vers := UInt16.ofNat vers, random := random, insertTimestamp := false, sessionId := [],
+                         suites := suites.map UInt16.ofNat, comp := [0], exts := wexts.map (·.e) }
+      showWCfg (writeToConfig cfg wexts sn (structured (sh0.map UInt16.ofNat)))
+    | _, _, _, _, _, _ => "bad-op"
   | ["wire", sn, fpc, rsid, copt, force, vers, random, ts, sid, suites, comp, rand, exts] =>
     match ofHex sn, parseFpCache fpc, rsid.toNat?, parseBool force, vers.toNat?, ofHex random, parseBool ts with
     | some sn, some fpc, some rsid, some force, some vers, some random, some ts =>
